@@ -53,6 +53,9 @@ Leaves ==
     \cup {Un("in", FX, <<"list", <<Lit(v), Lit(w)>> >>) : v, w \in LitPool}
     \cup {Un("eq", FX, <<"ref", FXY>>), Un("lt", FX, <<"dollar", FXY>>)}
     \cup {Un("eq", FXY, Lit(v)) : v \in LitPool}
+    \* the derived builders of query.Field
+    \cup {<<"sugar", "neq", FX, Lit(v)>> : v \in LitPool}
+    \cup {<<"sugar", s, FX, NoCrit>> : s \in {"notexists", "isnil", "isnilornotexists"}}
 BinLeaves == {Un(op, FX, Lit(v)) : op \in CmpOps, v \in LitPool}
 InLeaves  == {Un("in", FX, <<"list", <<Lit(v), Lit(w)>> >>) : v, w \in LitPool}
 Crits ==
@@ -154,6 +157,9 @@ MCNext ==
           Read([op |-> "Derived", c |-> c, q |-> b, js |-> <<0, 1, 2>>,
                 ids |-> [i \in 1..NIds |-> UUID(i)]])
     \/ Read([op |-> "Derived", c |-> Missing, q |-> <<>>, js |-> <<0>>, ids |-> <<UUID(1)>>])
+    \* IterateDocs with a consumer that returns an error at its j-th call
+    \/ \E c \in CollPool, w \in ({<<>>} \cup {<< <<"where", cr>> >> : cr \in BulkCrits}), s \in SortPool, j \in {0, 1, 2} :
+          Read([op |-> "IterateDocs", c |-> c, q |-> w \o s, j |-> j])
     \/ \E c \in CollPool \cup {Missing} : Read([op |-> "ListIndexes", c |-> c])
     \/ Read([op |-> "ListCollections"])
 
